@@ -169,6 +169,13 @@ def hex_ops(tier, rng):
             h = '%x' % n
             s = rng.choice([h, h.upper(), '0' * rng.randint(1, 5) + h, '0x' + h])
         ops.append(enc(s))
+        # what was just parsed is formatted next (text -> id -> text: the printed form must not depend on the spelling that was read)
+        try:
+            v = int(s, 16)
+            if v >= 0:
+                ops.append(f'hex {v}')
+        except ValueError:
+            pass
     return ops
 
 # ------------------------------------------------------------------------------------------
